@@ -21,7 +21,9 @@ def bounds(tier):
 
 def conditions(tier):
     q = tier == "quick"
-    cs = _d.doc_conditions(tier, eols=("\n",) if q else ("\n", "\r\n"))
+    cs = _d.doc_conditions(tier, eols=("\n",))
+    if not q:
+        cs += _d.doc_conditions("quick", eols=("\r\n",))
     if q:
         cs += _d.doc_conditions(tier, shapes=("steps", "description"), eols=("\r\n",))
     # a result already returned must stay what it was when the same Parser / builder go on to other documents
